@@ -165,16 +165,20 @@ func runXmod(p *Plan, c Case) caseResult {
 		}
 	}
 	// visibility of every module's final name in one directory state
-	check := func(st map[string][]byte, final bool, schedule []int) {
+	check := func(st map[string][]byte, final bool, schedule []int) (good bool) {
+		good = true
+		defer func() { res.Extra["entry-checks:"+c.Conf] += int64(len(mods)) }()
 		for i, m := range mods {
 			F, ok := st[m.Key]
 			switch {
 			case ok && bytes.Equal(F, m.Entry):
 			case !ok && !final:
 			case !ok:
+				good = false
 				addV([]viol{{phase + ":" + class + ":entry-missing-after-both-compiles",
 					fmt.Sprintf("thread %d (%s): CompileModule returned but its final name does not exist", i, m.Spec.Name)}}, schedule)
 			default:
+				good = false
 				what := entryDiff(m.Entry, F)
 				for j, o := range mods {
 					if j != i && bytes.HasPrefix(F, o.Entry[:min(len(o.Entry), len(F))]) && len(F) >= len(o.Entry) {
@@ -185,6 +189,7 @@ func runXmod(p *Plan, c Case) caseResult {
 					fmt.Sprintf("thread %d (%s): the entry under its final name is not byte-for-byte the entry this module produces when compiled alone (%s)", i, m.Spec.Name, what)}}, schedule)
 			}
 		}
+		return
 	}
 
 	var stack []choicePoint
@@ -267,7 +272,7 @@ func runXmod(p *Plan, c Case) caseResult {
 				}
 			}
 			st := readState(sub)
-			check(st, true, schedule)
+			entriesOK := check(st, true, schedule)
 			if len(st) == len(mods) {
 				res.Outcomes["xmod-final:one-entry-per-module"]++
 			} else {
@@ -278,8 +283,13 @@ func runXmod(p *Plan, c Case) caseResult {
 				sort.Strings(names)
 				res.Outcomes[fmt.Sprintf("xmod-final:%d-files", len(names))]++
 			}
-			// a later process, per module
+			// a later process, per module (not on entries already known to be wrong: loading them
+			// in-process would only kill this shard and lose the precise verdict)
 			for _, m := range mods {
+				if !entriesOK {
+					res.Outcomes["xmod-then:skipped-wrong-entry"]++
+					continue
+				}
 				o, vs := recoverAndJudge(phase, class, m, top, sub, nil, false)
 				res.Outcomes["xmod-then:"+o]++
 				res.Evals++
